@@ -47,10 +47,16 @@ func (in *Interp) cidFromText(s Value) Value {
 	if at, tag, ok := singleAtom(s); ok && at.Fam == "cid" && (tag == "str" || tag == "b58") {
 		return tuple(cidOf(at), nilErr)
 	}
+	if t, ok := opaqueOfStr(s); ok && (t.Ctor == "cidstr" || t.Ctor == "cidb58") {
+		return tuple(Value{K: KStruct, R: []Value{opqStr(ot("cidof", t.Args[0]))}}, nilErr)
+	}
 	return tuple(zeroCid(), in.newErr("invalid cid", Value{}))
 }
 
 func (in *Interp) cidFromBytes(b Value) Value {
+	if t, ok := opaqueOfBytes(b); ok && t.Ctor == "cidbytes" {
+		return tuple(Value{K: KStruct, R: []Value{opqStr(ot("cidof", t.Args[0]))}}, nilErr)
+	}
 	if b.R != nil {
 		cells := b.R.(*SliceV).S
 		if len(cells) == 1 && cells[0].K == KOpaque {
@@ -279,6 +285,9 @@ func init() {
 				if s, _ := a[0].R.([]Value)[0].ConcStr(); s == "" {
 					return mkStr("b"), true // cid.Undef.String() is the bare multibase prefix
 				}
+				if t, ok := opaqueOfStr(a[0].R.([]Value)[0]); ok && t.Ctor == "cidof" {
+					return opqStr(ot("cidstr", t.Args[0])), true // identifier of a document with symbolic fields
+				}
 				unsupported("String of non-atom cid")
 			}
 			return atomStr(at, "str"), true
@@ -291,15 +300,16 @@ func init() {
 			return mkBool(!(ok && s == "")), true
 		},
 		"(github.com/ipfs/go-cid.Cid).Equals": func(in *Interp, fr *Frame, a []Value) (Value, bool) {
-			ka, _ := keyOf(a[0])
-			kb, _ := keyOf(a[1])
-			return mkBool(ka == kb), true
+			return mkSymBool(in.strEqTerm(a[0].R.([]Value)[0], a[1].R.([]Value)[0])), true
 		},
 		"(github.com/ipfs/go-cid.Cid).Encode": func(in *Interp, fr *Frame, a []Value) (Value, bool) {
 			at, ok := cidAtom(a[0])
 			if !ok {
 				if s, _ := a[0].R.([]Value)[0].ConcStr(); s == "" {
 					return mkStr("z"), true // cid.Undef: the bare multibase prefix of an empty byte string
+				}
+				if t, ok := opaqueOfStr(a[0].R.([]Value)[0]); ok && t.Ctor == "cidof" {
+					return opqStr(ot("cidb58", t.Args[0])), true
 				}
 				unsupported("Encode of non-atom cid")
 			}
@@ -308,6 +318,9 @@ func init() {
 		"(github.com/ipfs/go-cid.Cid).Bytes": func(in *Interp, fr *Frame, a []Value) (Value, bool) {
 			at, ok := cidAtom(a[0])
 			if !ok {
+				if t, ok := opaqueOfStr(a[0].R.([]Value)[0]); ok && t.Ctor == "cidof" {
+					return opqBytes(ot("cidbytes", t.Args[0])), true
+				}
 				return Value{K: KSlice, R: &SliceV{S: []Value{}}}, true // cid.Undef has no bytes
 			}
 			return Value{K: KSlice, R: &SliceV{S: []Value{{K: KOpaque, R: &OpaqueBytes{A: at, Tag: "bin"}}}}}, true
@@ -374,7 +387,6 @@ func init() {
 			return nilErr, true
 		},
 		"fmt.Printf":  func(in *Interp, fr *Frame, a []Value) (Value, bool) { return tuple(mkInt(0, 64), nilErr), true },
-		"fmt.Sprintf": func(in *Interp, fr *Frame, a []Value) (Value, bool) { return mkStr("<sprintf>"), true },
 		// ---- sort via reflectlite ----
 		"internal/reflectlite.ValueOf": func(in *Interp, fr *Frame, a []Value) (Value, bool) {
 			return Value{K: KOpaque, R: a[0].R.(*IfaceV).V}, true
